@@ -505,6 +505,10 @@ class Net:
     def out_iter(self, k, table=None):
         """one iteration of node k's real _tcp_outgoing; table: {(point, destination node): callable}"""
         nd = self.nodes[k]
+        if not hasattr(self, "out_errors"):
+            self.out_errors = {}
+        if (k, id(nd)) in self.out_errors:
+            return          # the real outgoing thread ended when the exception escaped: nothing is sent any more
         tab = {}
         for (name, dst), f in (table or {}).items():
             if dst in nd.index_of_peer:
@@ -524,6 +528,9 @@ class Net:
             with self._Patched(self):
                 nd.dist._budget = 1
                 nd.dist._tcp_outgoing()
+        except (OSError, ValueError, TypeError, KeyError, AttributeError, RuntimeError) as ex:
+            # (harness conditions such as the iteration budget are not among these)
+            self.out_errors[(k, id(nd))] = "%s: %s" % (type(ex).__name__, ex)
         finally:
             self.src_stack.pop()
             nd.last_trace = [(w, nd.peer_of_index[i]) for w, i in raw.trace]
